@@ -295,3 +295,114 @@ def _len_affix(e) -> Optional[str]:
             if k is not None:
                 return k
     return None
+
+
+# ---------------------------------------------------------------------------
+def g4_strip_matched(pkg: Package, funcs: Iterable[FuncInfo], col: Collector, clause="S1"):
+    """A file name selected by `x.startswith(P)` / `x.endswith(S)` must be reduced to its id by slicing
+    off exactly len(P) / len(S) of the *same* P and S - not by splitext/split/replace, which disagree
+    with the filter for compound or dotted affixes."""
+    from sa.defuse import ReachingDefs
+    from sa.astutil import u
+    n_sites = 0
+    for ctx in funcs:
+        tests = {}
+        for n in own_nodes(ctx.node):
+            if isinstance(n, ast.Call) and isinstance(n.func, ast.Attribute) and n.func.attr in ("startswith", "endswith") \
+                    and isinstance(n.func.value, ast.Name) and n.args:
+                tests.setdefault(n.func.value.id, {}).setdefault(n.func.attr, set()).add(u(n.args[0]))
+        if not tests:
+            continue
+        rd = None
+        where = f"{ctx.module.relname}::{ctx.qualname}"
+        for n in own_nodes(ctx.node):
+            # forbidden reducers on a filtered name
+            if isinstance(n, ast.Call):
+                tgt = None
+                cn = ast.unparse(n.func)
+                if cn in ("os.path.splitext", "os.path.basename") and n.args and isinstance(n.args[0], ast.Name):
+                    tgt = n.args[0].id if cn == "os.path.splitext" else None
+                elif isinstance(n.func, ast.Attribute) and n.func.attr in ("rsplit", "split", "replace", "strip", "rstrip", "lstrip",
+                                                                           "removesuffix", "removeprefix", "partition", "rpartition") \
+                        and isinstance(n.func.value, ast.Name):
+                    tgt = n.func.value.id
+                    if n.func.attr in ("removesuffix", "removeprefix") and n.args and u(n.args[0]) in (
+                            tests.get(tgt, {}).get("endswith" if n.func.attr == "removesuffix" else "startswith", set())):
+                        tgt = None
+                if tgt in tests and tests[tgt].get("endswith"):
+                    n_sites += 1
+                    col.ob("G4", clause, f"{where}::reduce({tgt})-by-{cn.split('.')[-1]}", False,
+                           f"`{u(n)[:70]}` derives an id from `{tgt}`, which was selected with endswith("
+                           f"{sorted(tests[tgt]['endswith'])}); only slicing off len() of that same suffix inverts the "
+                           f"filter (compound suffixes such as '.phn.TextGrid' break otherwise)", ctx.module.relname, n.lineno,
+                           sample=u(n)[:100])
+            if isinstance(n, ast.Subscript) and isinstance(n.value, ast.Name) and n.value.id in tests \
+                    and isinstance(n.slice, ast.Slice) and isinstance(n.ctx, ast.Load):
+                x = n.value.id
+                lo, hi = n.slice.lower, n.slice.upper
+                if lo is None and hi is None:
+                    continue
+                if rd is None:
+                    rd = ReachingDefs(ctx.node)
+
+                def lens_in(e):
+                    out = set()
+                    if e is None:
+                        return out
+                    for ee in rd.derives(e, max_depth=2).exprs:
+                        for m in ast.walk(ee):
+                            if isinstance(m, ast.Call) and isinstance(m.func, ast.Name) and m.func.id == "len" and m.args:
+                                out.add(u(m.args[0]))
+                    return out - {x}
+                n_sites += 1
+                okl = lo is None or lens_in(lo) <= tests[x].get("startswith", set())
+                okh = hi is None or lens_in(hi) <= tests[x].get("endswith", set())
+                # a non-trivial bound must mention the matched affix at all
+                if lo is not None and not lens_in(lo):
+                    okl = isinstance(lo, ast.Constant)
+                if hi is not None and not lens_in(hi):
+                    okh = isinstance(hi, ast.Constant) and False
+                col.ob("G4", clause, f"{where}::strip({u(n)[:60]})", okl and okh,
+                       f"`{u(n)}` cuts `{x}` by len({sorted(lens_in(lo) | lens_in(hi))}) but the name was selected with "
+                       f"startswith({sorted(tests[x].get('startswith', []))}) / endswith({sorted(tests[x].get('endswith', []))})",
+                       ctx.module.relname, n.lineno, sample=dict(slice=u(n), tests={k: sorted(v) for k, v in tests[x].items()}))
+    col.count("g4_strip_sites", n_sites)
+    return n_sites
+
+
+def g16_stale_loop_vars(pkg: Package, funcs: Iterable[FuncInfo], col: Collector, clause="S0"):
+    """A name all of whose reaching definitions lie inside a loop body, read after that loop: the value is
+    that of the last iteration only (or undefined for an empty loop). Exception: search loops over a non-empty
+    literal tuple/list."""
+    from sa.defuse import ReachingDefs
+    n_loops = 0
+    for ctx in funcs:
+        loops = [n for n in own_nodes(ctx.node) if isinstance(n, (ast.For, ast.While))]
+        if not loops:
+            continue
+        rd = ReachingDefs(ctx.node)
+        where = f"{ctx.module.relname}::{ctx.qualname}"
+        for L in loops:
+            n_loops += 1
+            if isinstance(L, ast.For) and isinstance(L.iter, (ast.Tuple, ast.List)) and L.iter.elts:
+                continue
+            inside = {id(x) for x in ast.walk(L)}
+            stale = []
+            for n in own_nodes(ctx.node):
+                if isinstance(n, ast.Name) and isinstance(n.ctx, ast.Load) and id(n) not in inside \
+                        and n.lineno > (L.end_lineno or L.lineno):
+                    ds = rd.defs_of(n)
+                    if ds and all(d.stmt is not None and id(d.stmt) in inside and d.kind != "item" for d in ds):
+                        stale.append(n)
+            col.ob("G16", clause, f"{where}::loop@{_loop_key(L)}::no-loop-local-used-after-the-loop", not stale,
+                   f"`{stale[0].id if stale else ''}` is bound only inside the loop over `{_loop_key(L)}` but read after "
+                   f"it: it holds the last iteration's value (e.g. the last batch), not the whole", ctx.module.relname,
+                   stale[0].lineno if stale else L.lineno, sample=[f"{n.id}@{n.lineno}" for n in stale],
+                   nontrivial=False)
+    col.count("g16_loops", n_loops)
+    return n_loops
+
+
+def _loop_key(L) -> str:
+    s = ast.unparse(L.iter if isinstance(L, ast.For) else L.test)
+    return s if len(s) < 50 else s[:47] + "..."
